@@ -257,6 +257,8 @@ type udpClient struct {
 	res     *vh.Result
 	in      *engInput
 	recvd   atomic.Int64
+	strays  atomic.Int64
+	server  *net.UDPAddr
 	stop    chan struct{}
 	done    chan struct{}
 	rcFails atomic.Int64
@@ -278,7 +280,7 @@ func (c *udpClient) receiver() {
 	buf := make([]byte, 65535)
 	for {
 		_ = c.conn.SetReadDeadline(time.Now().Add(100 * time.Millisecond))
-		n, _, err := c.conn.ReadFromUDP(buf)
+		n, from, err := c.conn.ReadFromUDP(buf)
 		if err != nil {
 			var ne net.Error
 			if errors.As(err, &ne) && ne.Timeout() {
@@ -290,6 +292,12 @@ func (c *udpClient) receiver() {
 				}
 			}
 			return
+		}
+		if from == nil || !from.IP.Equal(c.server.IP) || from.Port != c.server.Port {
+			// not from the server under test: some other process of this (shared) machine wrote to a
+			// port it knew from before; nothing the engine did
+			c.strays.Add(1)
+			continue
 		}
 		b := append([]byte(nil), buf[:n]...)
 		c.recvd.Add(1)
@@ -681,7 +689,7 @@ func TestEngineLoad(t *testing.T) {
 			t.Fatalf("client socket: %v", err)
 		}
 		c := &udpClient{idx: idx, conn: conn, out: map[uint16]*query{}, idBase: idx * idSpan, idSpan: idSpan,
-			res: res, in: &in, stop: make(chan struct{}), done: make(chan struct{})}
+			res: res, in: &in, server: uaddr, stop: make(chan struct{}), done: make(chan struct{})}
 		go c.receiver()
 		return c
 	}
@@ -846,6 +854,7 @@ func TestEngineLoad(t *testing.T) {
 	}
 	for _, c := range clients {
 		res.Count("udp_datagrams_received", int(c.recvd.Load()))
+		res.Count("udp_strays_from_elsewhere", int(c.strays.Load()))
 		res.Count("rcode_failures", int(c.rcFails.Load()))
 	}
 	res.Count("tcp_conns", int(tc.conns.Load()))
